@@ -100,6 +100,7 @@ static void w1(uint64_t i, vf::Rng& r) {
   unsigned T = nthreads(r);
   uint64_t seed = r.next();
   vf::note("W1 own documents");
+  vf::witness("W1: " + std::to_string(T) + " threads, each parse/mutate/serialise/on-demand/UpdateLazy/ParseSchema on 12 own documents, work seed " + std::to_string(seed));
   std::vector<uint64_t> expect(T), got(T);
   for (unsigned t = 0; t < T; t++) expect[t] = w1_thread_work(seed, t, false);  // single-threaded reference
   reset_tickets();
@@ -162,6 +163,7 @@ static void w2(uint64_t i, vf::Rng& r) {
   su::PoolDoc shared;
   shared.Parse(text.data(), text.size());
   if (shared.HasParseError()) return;
+  vf::witness("W2: " + std::to_string(T) + " reader threads" + (with_map ? " (lookup maps built)" : "") + " on shared document " + text);
   if (with_map) {
     shared.CreateMap(shared.GetAllocator());
     for (auto it = shared.MemberBegin(); it != shared.MemberEnd(); ++it)
@@ -270,6 +272,7 @@ static void w3(uint64_t i, vf::Rng& r) {
   vf::eval();
   unsigned T = nthreads(r);
   vf::note("W3 shared pool by reference");
+  vf::witness("W3: " + std::to_string(T) + " threads x 200 Malloc/Realloc on one MemoryPoolAllocator shared by reference" + ((i & 1) ? " + one document per thread on a shared pool" : ""));
   {
     MemoryPoolAllocator<> pool(r.coin() ? 1024 : 65536);
     pool_storm(r, T, [&](unsigned) -> MemoryPoolAllocator<>& { return pool; }, "W3");
@@ -311,6 +314,7 @@ static void w3b(uint64_t, vf::Rng& r) {
   vf::eval();
   unsigned T = nthreads(r);
   vf::note("W3b shared pool through handle copies");
+  vf::witness("W3b: " + std::to_string(T) + " threads x 200 Malloc/Realloc, each through its own copy of one pool's handle");
   MemoryPoolAllocator<> pool(1024);
   std::vector<std::unique_ptr<MemoryPoolAllocator<>>> copies;
   for (unsigned t = 0; t < T; t++) copies.emplace_back(new MemoryPoolAllocator<>(pool));
